@@ -69,6 +69,25 @@ def case_insensitive_terminals(ctx):
                     flags = True
             bad = [] if flags or not isinstance(arg, str) else \
                 _one_sided_letters(arg)
+            if not flags and not isinstance(arg, str) and call.args:
+                # a pattern assembled from pieces: look at the character
+                # classes of its constant fragments
+                import re as _re
+                for frag in ast.walk(call.args[0]):
+                    if isinstance(frag, ast.Constant) and \
+                            isinstance(frag.value, str):
+                        for cls_ in _re.findall(r'\[\^?([^\]]*)\]',
+                                                frag.value):
+                            low = bool(_re.search(r'[a-z]-[a-z]', cls_)) or \
+                                any(ch.islower() for ch in
+                                    _re.sub(r'.-.', '', cls_))
+                            up = bool(_re.search(r'[A-Z]-[A-Z]', cls_)) or \
+                                any(ch.isupper() for ch in
+                                    _re.sub(r'.-.', '', cls_))
+                            if low != up:
+                                bad.append(f'[{cls_}]')
+                construct = f'{g.relpath}:Regex(<assembled>)@' + \
+                    (unparse(call.args[0])[:40])
             ctx.instance(rule, construct, sample={'ignorecase': bool(flags),
                                                   'one_sided': bad})
             if bad:
